@@ -83,8 +83,79 @@ def plan_core(pid, profile, level_text, extra_jobs=None, required=WINDOW_PATHS, 
     }
 
 
+def race_job(name, flavour, shape, val, secs=0, shards=1, ops=None, miri_seeds=0, threads=8, scale=2):
+    args = ["race", "shape=" + shape, "val=" + val]
+    if secs:
+        args.append("secs=%d" % secs)
+    if ops:
+        args.append("ops=%d" % ops)
+    if flavour != "miri":
+        args.append("scale=%d" % scale)
+    j = {"name": name, "flavour": flavour, "args": args, "shards": shards, "threads": threads, "timeout": max(600, secs * 8 + 300)}
+    if flavour == "miri":
+        j["miri_seeds"] = miri_seeds
+        j["timeout"] = 900
+    return j
+
+
+def miri_race_jobs(pid, tier, shapes_vals, quick_seeds=12, thorough_seeds=384):
+    n = T(tier, quick_seeds, thorough_seeds)
+    return [race_job("%s.miri.%s.%s" % (pid, sh, val), "miri", sh, val, miri_seeds=n, ops=T(tier, 8, 10)) for (sh, val) in shapes_vals]
+
+
+RACE_RULE = ("One evaluation = one execution of the hb-silent race workload (readers / writers on 1-2 containers; shapes a: default strategy with "
+             "short-lived guards, b: fallback-only strategy with two writers (helping), c: more guards held than fast slots, d: compare-and-swap / rcu "
+             "writers with guards and previous values handed to other threads, e: fallback-only with hand-over) under ThreadSanitizer (real "
+             "parallelism, delay fuzzing at step points) or under one Miri seed (seeded scheduler + C11 store-buffer emulation + address reuse). "
+             "Non-trivial = the execution completed at least one load concurrently with writes; distinct = distinct (tool, shape, value type, seed/shard) "
+             "combination, counted.")
+
+
+def race_evidence(merged, results):
+    combos = set()
+    for r in results:
+        if r["report"] and r["report"].get("execs", 0) > 0:
+            combos.add((r["job"], r["shard"]))
+    n_miri = sum((r["report"] or {}).get("execs", 0) for r in results if r["flavour"] == "miri")
+    c = merged["counters"]
+    return {
+        "distinct_nontrivial": len(combos) + n_miri,
+        "miri_seeds_completed": n_miri,
+        "loads": c.get("race.loads", 0),
+        "payload_reads_through_handles": c.get("race.payload_reads_through_handles", 0),
+        "loads_by_path": {k: v for k, v in c.items() if k.startswith("load.")},
+        "tool_runs": sorted(set("%s:%s" % (r["flavour"], r["job"]) for r in results)),
+    }
+
+
+def plan_c07():
+    def jobs(tier, seed):
+        js = []
+        for val in ("tp", "arc"):
+            js.append(race_job("C07.tsan." + val, "tsan", "a,b,c,d,e", val, secs=T(tier, 5, 60), shards=T(tier, 2, 4)))
+        if tier == "quick":
+            js += miri_race_jobs("C07", tier, [("a", "tp"), ("b", "tp"), ("c", "tp"), ("a", "arc")], quick_seeds=12)
+        else:
+            js += miri_race_jobs("C07", tier, [("a", "tp"), ("b", "tp"), ("c", "tp"), ("d", "tp"), ("e", "tp"), ("a", "arc"), ("b", "arc"), ("d", "arc")])
+        return js
+    return {
+        "level": "exploration",
+        "jobs": jobs,
+        "rule": RACE_RULE,
+        "evidence": race_evidence,
+        "required": core_required(["load.fast_confirmed", "load.fallback_confirmed", "load.fallback_helped", "load.fast_changed_debt_returned"]),
+        "assumptions": [
+            "ThreadSanitizer decides happens-before from the orderings the code requests (so missing Acquire/Release edges are visible on x86) but does not model stale reads or fences; the harness uses no fences and shares nothing between workers while the workload runs.",
+            "Miri emulates C11 store buffers, data races, address reuse and provenance on tiny workloads; its SC handling can deviate from C++20 in corner cases, so every Miri finding was re-derived by hand before being acted upon (DESIGN.md section 3).",
+            "SeqCst-only weakenings that need store buffering through read-modify-write operations are out of reach of both tools.",
+        ],
+        "min_evaluations": {"quick": 20, "thorough": 500},
+    }
+
+
 PLANS = {}
-PLANS["C01"] = plan_core("C01", "c01", "ledger + sanitizers over scheduled executions")
+PLANS["C01"] = plan_core("C01", "c01", "ledger + sanitizers over scheduled executions",
+                         extra_jobs=lambda tier, seed: miri_race_jobs("C01", tier, [("a", "tp"), ("b", "tp"), ("c", "arc"), ("e", "arc")], 8, 256))
 PLANS["C02"] = plan_core("C02", "c02", "conservation law at quiescent points")
 PLANS["C03"] = plan_core("C03", "c03", "history linearizability", asan=False)
 PLANS["C04"] = plan_core("C04", "c04", "chain / conservation of writes", asan=False, required=["load.fast_confirmed", "load.fallback_confirmed", "write.helped_reader"])
@@ -92,3 +163,117 @@ PLANS["C05"] = plan_core("C05", "c05", "compare-and-swap histories", asan=False,
 PLANS["C06"] = plan_core("C06", "c06", "rcu histories", asan=False, required=["rcu.retried", "load.fallback_confirmed"])
 PLANS["C10"] = plan_core("C10", "c10", "guard identity / ownership ledger")
 PLANS["C12"] = plan_core("C12", "c12", "per-container histories", asan=False, required=WINDOW_PATHS + ["write.help_other_storage"])
+PLANS["C07"] = plan_c07()
+
+
+def life_job(name, mode, execs=0, secs=0, flavour="native", alloc="quarantine", shards=4, val="tp", profile="c10", threads=6):
+    args = ["life", "profile=" + profile, "mode=" + mode, "alloc=" + alloc, "val=" + val]
+    args.append("execs=%d" % execs if execs else "secs=%d" % secs)
+    return {"name": name, "flavour": flavour, "args": args, "shards": shards, "threads": threads, "timeout": 1500 if execs else secs * 6 + 300}
+
+
+LIFE_RULE = ("One evaluation = one seeded execution: either of the core workload (see C01) or of the thread-lifecycle workload: 2-5 rounds of 1-3 "
+             "short-lived threads that load, keep, hand over guards and exit (some run container operations from a thread-local destructor after "
+             "the crate's own thread-local is gone), one long-lived writer walking all nodes, one long-lived keeper holding handed-over guards "
+             "across their creators' exits, a director spawning the rounds; TOKEN-scheduled (thread start, exit and thread-local destructors run "
+             "under the token) or free-running. Non-trivial = a load overlapped a write of another thread; distinct = distinct schedule-trace / "
+             "history hash; distinct_nontrivial = size of the union over shards.")
+
+
+def life_jobs(pid, tier):
+    return [
+        life_job(pid + ".life.token.quarantine", "token", execs=T(tier, 600, 40000)),
+        life_job(pid + ".life.token.reuse", "token", execs=T(tier, 400, 20000), alloc="reuse"),
+        life_job(pid + ".life.free.native", "free", secs=T(tier, 5, 90), alloc="reuse", shards=2),
+        life_job(pid + ".life.free.asan", "free", secs=T(tier, 5, 60), flavour="asan", alloc="real", shards=2),
+        life_job(pid + ".life.free.asan.arc", "free", secs=T(tier, 4, 60), flavour="asan", alloc="real", shards=2, val="arc"),
+    ]
+
+
+def plan_c10():
+    base = plan_core("C10", "c10", "guard identity / ownership ledger")
+    core_jobs = base["jobs"]
+    base["jobs"] = lambda tier, seed: core_jobs(tier, seed)[:3] + life_jobs("C10", tier)
+    base["rule"] = LIFE_RULE
+    base["required"] = core_required(WINDOW_PATHS + ["node.reused", "life.tls_gone_ops", "life.threads_created"])
+    return base
+
+
+def plan_c11():
+    def ev(merged, results):
+        e = core_evidence(merged, results)
+        c = merged["counters"]
+        e["threads_created"] = c.get("life.threads_created", 0)
+        e["ownership_intervals_checked"] = c.get("life.ownership_intervals", 0)
+        e["operations_after_tls_gone"] = c.get("life.tls_gone_ops", 0)
+        e["max_nodes"] = merged["maxima"].get("nodes", 0)
+        e["peak_threads_alive"] = merged["maxima"].get("peak_threads_alive", 0)
+        return e
+    return {
+        "level": "exploration",
+        "jobs": lambda tier, seed: life_jobs("C11", tier),
+        "rule": LIFE_RULE,
+        "evidence": ev,
+        "required": core_required(["node.reused", "node.new", "life.tls_gone_ops", "life.threads_created", "life.ownership_intervals", "write.helped_reader"]),
+        "assumptions": CORE_ASSUMPTIONS + ["Node-count bound checked: nodes <= 2 x peak number of workload threads alive at once in the process (a cooled-down node is refused only while a writer is inside it)."],
+        "min_evaluations": {"quick": 500, "thorough": 20000},
+    }
+
+
+def plan_c14():
+    def jobs(tier, seed):
+        return [
+            {"name": "C14.seq.tp", "flavour": "native", "args": ["seq", "val=tp", "progs=%d" % T(tier, 15000, 600000)], "shards": 8, "threads": 1, "timeout": 1800},
+            {"name": "C14.seq.tp.reuse", "flavour": "native", "args": ["seq", "val=tp", "alloc=reuse", "progs=%d" % T(tier, 5000, 200000)], "shards": 4, "threads": 1, "timeout": 1800},
+            {"name": "C14.seq.arc.asan", "flavour": "asan", "args": ["seq", "val=arc", "progs=%d" % T(tier, 3000, 100000)], "shards": 4, "threads": 1, "timeout": 1800},
+            {"name": "C14.seq.miri", "flavour": "miri", "args": ["seq", "val=tp", "alloc=real", "progs=%d" % T(tier, 6, 12), "len=40"], "miri_seeds": T(tier, 8, 96), "timeout": 900},
+        ]
+
+    def ev(merged, results):
+        c = merged["counters"]
+        return {"evaluations": c.get("seq.programs", 0) * 3, "programs": c.get("seq.programs", 0), "strategies": ["default", "fallback-only", "rwlock"],
+                "steps_per_strategy": c.get("seq.steps_per_strategy", 0)}
+    return {
+        "level": "exploration",
+        "jobs": jobs,
+        "rule": ("One evaluation = one seeded random single-threaded program (10-80 API calls over <= 3 containers, a pool of 6 values plus None, <= 12 live guards; "
+                 "new / load / load_full / Guard::into_inner / Guard::from_inner / guard drop in any order / store / swap / compare_and_swap with every form of "
+                 "current / rcu incl. re-entrant store / into_inner / drop) run under one strategy and compared with the plain-variable model after every step; "
+                 "each program is run under all three strategies. Non-trivial = at least 10 steps executed; distinct = distinct (result-sequence hash, length)."),
+        "evidence": ev,
+        "assumptions": ["The model is a 60-line plain-variable interpreter; counts are compared through the conservation law at every step (every step of a sequential program is a quiescent point)."],
+        "min_evaluations": {"quick": 10000, "thorough": 500000},
+    }
+
+
+def plan_c15():
+    def jobs(tier, seed):
+        return [
+            {"name": "C15.kinds.native", "flavour": "native", "args": ["kinds"], "shards": 1, "threads": 1, "timeout": 300},
+            {"name": "C15.kinds.asan", "flavour": "asan", "args": ["kinds"], "shards": 1, "threads": 1, "timeout": 300},
+            {"name": "C15.kinds.miri", "flavour": "miri", "args": ["kinds"], "miri_seeds": 1, "timeout": 900},
+        ]
+
+    def ev(merged, results):
+        c = merged["counters"]
+        runs = len([r for r in results if r["report"]])
+        return {"evaluations": c.get("kinds.cells", 0), "distinct_nontrivial": c.get("kinds.cells", 0) // max(1, runs), "law_checks": c.get("kinds.law_checks", 0),
+                "exhaustive": True, "tools": sorted(set(r["flavour"] for r in results if r["report"]))}
+    return {
+        "level": "exploration",
+        "jobs": jobs,
+        "rule": ("One evaluation = one cell of the finite grid {Arc, Rc, Option<Arc>, Option<Rc>, Option<Option<Arc>>, Weak, rc::Weak, Option<Weak>} x "
+                 "{ZST, u8, u64, align(64), String, [u64;33]} x {unique, shared, with weak refs, target dropped, dangling, None, nested empties} with 14 law "
+                 "checks each (raw round trip, as_ptr vs into_ptr, inc, dec, null mapping, container round trip), plus address-distinctness and "
+                 "weak-container cells; the grid is enumerated completely, natively, under ASan and under Miri. Every cell is non-trivial; "
+                 "distinct_nontrivial = number of distinct cells."),
+        "evidence": ev,
+        "assumptions": ["'Never dereferenced / never counted' for the empty values is decided by Miri and AddressSanitizer on the same grid."],
+        "min_evaluations": {"quick": 100, "thorough": 100},
+    }
+
+
+PLANS["C10"] = plan_c10()
+PLANS["C11"] = plan_c11()
+PLANS["C14"] = plan_c14()
+PLANS["C15"] = plan_c15()
